@@ -31,6 +31,7 @@ SIGNATURES = [
     ("subprogram_parameter_kw", r"kw:(function|procedure) \[\S+\] kw:parameter"),
     ("call_extra_rpar", r"RightPar \[SemiColon\] .*out=RightPar"),
     ("config_selected_entity", r"ctx=(\S+ )*kw:configuration \S+ kw:of \S+ Dot \[Identifier\]"),
+    ("iface_trailing_semicolon", r"\[SemiColon\] RightPar .*out=RightPar"),
     ("postponed_selected", r"\[kw:postponed\] kw:with"),
     ("parameter_without_list", r"kw:(function|procedure) \S+ (kw:generic .*)?\[kw:parameter\] (kw:return|SemiColon|kw:is)"),
     ("config_spec_map_only", r"kw:for .* Colon Identifier kw:(generic|port) \[kw:map\]"),
@@ -318,13 +319,33 @@ def main(tier, replay=None):
     terms = []
     thorough = tier == "thorough"
 
-    def stream(tag, mode, n, term_every=0, sd=None):
+    jobs = []
+
+    def stream(*a, **kw):
+        jobs.append((len(jobs), a, kw))
+
+    def run_jobs():
+        # the harness runs of the streams are independent processes: run them side by side
+        from concurrent.futures import ThreadPoolExecutor
+        with ThreadPoolExecutor(max_workers=6) as ex:
+            list(ex.map(lambda j: stream_now(j[0], *j[1], **j[2]), jobs))
+        running.sort(key=lambda r: r[0])
+        for i in range(len(running)):
+            running[i] = running[i][1:]
+        del jobs[:]
+        lap("harness_wall")
+
+    def stream_now(idx, tag, mode, n, term_every=0, sd=None, std="08"):
+        t0 = time.time()
+        # the model tokenizer knows the keyword table of VHDL-2008 only: under the other standards the output is replayed
+        # through the buffer model and checked against sep_ok, but not re-lexed by the model
+        limit = LIMIT if std == "08" else 0
         cases, impl, model, mout = (os.path.join(d, "%s.%s" % (tag, x)) for x in ("cases", "impl", "model", "mout"))
         for p in (cases, impl, model, mout):
             if os.path.exists(p):
                 os.remove(p)
-        rc, out = run([hbin, mode, str(seed() if sd is None else sd), str(n), cases, impl, model], timeout=3000)
-        lap(tag + ":harness")
+        rc, out = run([hbin, mode, str(seed() if sd is None else sd), str(n), cases, impl, model, std], timeout=3000)
+        stage_s[tag + ":harness"] = round(time.time() - t0, 1)
         if rc != 0:
             last = ""
             if os.path.exists(cases):
@@ -354,11 +375,12 @@ def main(tier, replay=None):
                     f.write(ln + "\n")
             fin = open(pin)
             fout = open(pout, "w")
-            p = subprocess.Popen([mbin, str(LIMIT)], stdin=fin, stdout=fout, env=env, preexec_fn=big_stack)
+            p = subprocess.Popen([mbin, str(limit)], stdin=fin, stdout=fout, env=env, preexec_fn=big_stack)
             procs.append((p, fin, fout, pin, pout))
-        running.append((tag, procs, len(lines), cases, impl, mout, term_every))
+        running.append((idx, tag, procs, len(lines), cases, impl, mout, term_every))
 
     def join_streams():
+        run_jobs()
         for tag, procs, nlines, cases, impl, mout, term_every in running:
             bad_rc = None
             outs = []
@@ -393,11 +415,21 @@ def main(tier, replay=None):
         rp = json.load(open(replay))
         path = os.path.join(d, "replay.in")
         open(path, "w").write(rp["case"] + "\n")
-        stream("replay", "replay:" + path, 0, 1)
+        tag0 = rp["case"].split(" ", 1)[0]
+        stream("replay", "replay:" + path, 0, 1, std={"U93": "93", "U19": "19"}.get(tag0, "08"))
     else:
         corpus = os.path.join(VERIF, "corpus", "C12.cases")
         if os.path.exists(corpus):
-            stream("corpus", "replay:" + corpus, 0, 1)
+            # every VHDL standard the parser supports: lines without a standard tag (`U`) are run under each standard, the
+            # tagged ones (`U93`, `U08`, `U19`) only under theirs
+            clines = [ln for ln in open(corpus).read().split("\n") if ln.startswith("U")]
+            for sd_, tg in (("08", "U08"), ("93", "U93"), ("19", "U19")):
+                cp = os.path.join(d, "corpus%s.in" % sd_)
+                with open(cp, "w") as f:
+                    for ln in clines:
+                        if ln.split(" ", 1)[0] in ("U", tg):
+                            f.write(ln + "\n")
+                stream("corpus" if sd_ == "08" else "corpus" + sd_, "replay:" + cp, 0, 1 if sd_ == "08" else 0, std=sd_)
         # bundled libraries (read as ISO-8859-1) + variants
         libs = []
         for root in (os.path.join("/repo", "vhdl_libraries"), os.path.join("/repo", "example_project")):
@@ -430,13 +462,28 @@ def main(tier, replay=None):
         # the 'optional tokens' family: every construct with optional labels / end labels / keywords in every combination
         # of its optional parts (exhaustive), + variants
         stream("optional_tokens", "opt", 3 if thorough else 1, 41 if thorough else 29)
+        stream("optional_tokens93", "opt", 3 if thorough else 1, 0, std="93")
+        stream("optional_tokens19", "opt", 3 if thorough else 1, 0, std="19")
+        stream("snippets19", "cases:" + sn, 7 if thorough else 1, 0, std="19")
+        stream("generated93", "gen", 1500 if thorough else 60, 0, std="93")
+        stream("generated19", "gen", 1500 if thorough else 60, 0, std="19")
         # generated design files (+ 2 variants each)
         stream("generated", "gen", 6000 if thorough else 250, 23 if thorough else 7)
 
     join_streams()
     # the smallest failing sources first
     pending["input"].sort(key=lambda wo: len(wo[1].get("case", "")))
-    for what, obj in pending["input"][:6]:
+    # one (smallest) source per distinct divergence class first, so that many instances of one root cause do not hide another
+    def cls(obj):
+        m = re.search(r"\[(\S+)\]", obj.get("oracle", ""))
+        return obj.get("signature_id") or ("unclassified:" + (m.group(1) if m else obj.get("oracle", "")[:40]))
+    first, rest, seen_cls = [], [], set()
+    for wo in pending["input"]:
+        k = cls(wo[1])
+        (rest if k in seen_cls else first).append(wo)
+        seen_cls.add(k)
+    res.coverage["violation_classes"] = sorted(seen_cls)
+    for what, obj in (first + rest)[:8]:
         res.violation(what, obj)
     for what, obj in pending["corr"][:4]:
         res.violation(what, obj, no_failing_input=True)
@@ -471,7 +518,10 @@ def main(tier, replay=None):
         "the token boundaries: comments at token gaps (line and block, before/after/several, with Latin-1, non-Latin-1, "
         "trailing blanks, NBSP, comment delimiters inside), comments at every gap, minimal spacing, CRLF/CR/tabs/blank lines, "
         "letter case + extended identifiers + Latin-1 strings/characters (consistently per identifier), all of them, an "
-        "ignored `vhdl_ls off`..`on` region.  Sources with diagnostics are outside the property (counted as SKIP).  "
+        "ignored `vhdl_ls off`..`on` region (block comments also hold supplementary-plane characters).  The corpus, the "
+        "optional-tokens family (with the VHDL-2019 forms: trailing `;` of interface lists, `return id of type`, conditional "
+        "expressions in declarations, mode views, `end` without `component`), the snippets and generated files are also run with "
+        "the parser of VHDL-1993 and of VHDL-2019 (sources that are diagnostic-free under that standard).  Sources with diagnostics are outside the property (counted as SKIP).  "
         "non-trivial = the source has at least one comment attached to a token or a character outside printable ASCII/LF; "
         "distinct by hash of the source text")
     res.coverage["trusted_base"] = TRUSTED_BASE_COMMON + [
@@ -479,6 +529,8 @@ def main(tier, replay=None):
         "interface,subprogram,configuration,...}.rs) are NOT modelled: what they do is observed per file as a trace of buffer "
         "operations reconstructed from the output by the runner's matcher (glue code) and validated by replaying it through the "
         "extracted model (byte-for-byte) — no hook in /repo",
+        "under VHDL-1993 / VHDL-2019 the model tokenizer (keyword table of VHDL-2008) does not re-lex the outputs: there the model "
+        "half is the byte-for-byte replay through the buffer model and sep_ok; the oracle runs under all three standards",
         "the tokenizer model RH.Lex.LangLexer is shared with C11 (tied to the code by C11's differential run and here on every "
         "formatted output up to the size limit)",
         "Value equality of the implementation (`Token::equal_format`: kind and value; identifiers up to letter case as Symbol "
